@@ -694,7 +694,13 @@ func (ls *LState) where(level int, skipg bool) string {
 	}
 	line := ""
 	if proto != nil {
-		line = fmt.Sprintf("%v:", proto.DbgSourcePositions[cf.Pc-1])
+		if cf.Pc > 0 {
+			line = fmt.Sprintf("%v:", proto.DbgSourcePositions[cf.Pc-1])
+		} else {
+			// the frame is being set up (e.g. registry overflow while
+			// reserving its registers): no instruction has run yet
+			line = fmt.Sprintf("%v:", proto.LineDefined)
+		}
 	}
 	return fmt.Sprintf("%v:%v", sourcename, line)
 }
